@@ -26,7 +26,7 @@ import faults
 import gen_check
 
 EXTRA = ["wf_dec", "g_operands", "g_access", "g_literal", "has_recursion", "sh_parloop_call",
-         "has_bad_limit", "sh_bad_literal", "sh_bad_guard", "sh_string_eq", "sh_lenvar"]
+         "has_bad_limit", "sh_bad_literal", "sh_bad_guard", "sh_string_eq", "sh_lenvar", "c11_guard"]
 HEADER = check_core.HEADER + "From PFDL.Check Require Import Typing Guards.\n"
 
 # finding id -> (shape name among EXTRA, value of the predicate that means "shape present")
@@ -346,6 +346,14 @@ def slice_C11(pid, cfg, tier, seed, workdir, rep, stats, findings):
         count_shape_stats(stats, c)
         ok = corr_check(pid, c, rep, stats)
         why = mon_C11(c)
+        if c["shapes"].get("c11_guard"):
+            stats["inside_c11_guard"] += 1
+            # theorem C11_wf_accepted_partial: certified and inside the guard => the model accepts;
+            # a deviation can only be a defect of the printers / the evaluation glue
+            if c["model"]["status"] != "ok" or c["model"]["errs"]:
+                rep.violation(payload(pid, c, "machinery", "wf_dec and c11_guard hold but the model does not accept"),
+                              "no-failing-input-found")
+                continue
         if fam == "wf":
             verdict_of[c["meta"]["seed"]] = c["impl"]["valid"]
         if fam == "wf-permuted":
